@@ -313,3 +313,26 @@ Example C20_example_uniform_unrooted :
   exists t, uniform_tree 5 false [0; 1; 4] [] = GOk t.
 Proof. split; [vm_compute; repeat constructor|eexists; vm_compute; reflexivity]. Qed.
 Print Assumptions C20_example_uniform_unrooted.
+
+(** * prune --random k: whatever the draws, the selection is made of exactly min(k, n) tips of the tree
+    (all of them when k >= n, with no draw), pairwise distinct when the tip names are: -r keeps
+    exactly these, the default mode removes exactly these *)
+From GT Require Import Proofs.StretchSix.
+
+Theorem C20_random_tips_size :
+  forall k t cs, in_bounds cs (reservoir_bounds code_bound k (length (tip_names t))) ->
+    exists sel, random_tips k t cs = Some (map Some sel) /\
+                length sel = Nat.min k (length (tip_names t)) /\
+                incl sel (tip_names t) /\ (NoDup (tip_names t) -> NoDup sel).
+Proof. exact random_tips_size. Qed.
+Print Assumptions C20_random_tips_size.
+
+Example C20_example_random_tips :
+  let t := UNode EmptyString [] [Some (e0, UNode "a" [] [None]); Some (e0, UNode "b" [] [None]);
+                                 Some (e0, UNode "c" [] [None]); Some (e0, UNode "d" [] [None])]%string in
+  in_bounds [1; 3] (reservoir_bounds code_bound 2 (length (tip_names t))) /\
+  random_tips 2 t [1; 3] = Some [Some "a"; Some "c"]%string /\
+  in_bounds [] (reservoir_bounds code_bound 6 (length (tip_names t))) /\
+  random_tips 6 t [] = Some [Some "a"; Some "b"; Some "c"; Some "d"]%string.
+Proof. vm_compute. repeat split; repeat constructor. Qed.
+Print Assumptions C20_example_random_tips.
